@@ -108,11 +108,13 @@ ReachNodes(r, mixed) == ReachN(r, Roots(r), Roots(r), mixed)
 ReachMans(r, mixed) == {n[1] : n \in ReachNodes(r, mixed)}
 ReachBlobs(r, mixed) ==
   UNION {UNION {IF View(n[1], mt).wf THEN RefBlobs(n[1], mt) ELSE {} : mt \in Readings(r, n, mixed)} : n \in ReachNodes(r, mixed)}
-\* protection that MUST be given (C14: everything a tagged manifest transitively
-\* references remains retrievable) and protection that MAY be given.
-MustKeepBlob(r, c) == imm /\ c \in ReachBlobs(r, FALSE)
+\* C14: everything a tagged manifest transitively references remains retrievable.  A tag
+\* vouches for the media type it was pushed with, the registry for the type a manifest is stored
+\* with; what either reading reaches is protected (weakening either one under-protects: the K1
+\* defect was the first, an independently seeded defect the second).  Must and May coincide.
+MustKeepBlob(r, c) == imm /\ c \in ReachBlobs(r, TRUE)
 MayKeepBlob(r, c) == imm /\ c \in ReachBlobs(r, TRUE)
-MustKeepMan(r, c) == imm /\ c \in ReachMans(r, FALSE)
+MustKeepMan(r, c) == imm /\ c \in ReachMans(r, TRUE)
 MayKeepMan(r, c) == imm /\ c \in ReachMans(r, TRUE)
 
 \* ----------------------------------------------------------------- init --
@@ -263,8 +265,9 @@ GetBlobRange(r, c, o0, o1) ==
              IF OnBoundary(s, o0) /\ OnBoundary(s, e)
                THEN res' = OkRange(c, None, SubSeq(s, ElemsBefore(s, o0) + 1, ElemsBefore(s, e)))
                ELSE res' = OkDesc(c, None)
-          ELSE \/ res' = ErrR("FAIL")
-               \/ o0 = e /\ res' = OkRange(c, None, <<>>)
+          \* a well-formed request starting exactly at the end of the blob yields the empty slice
+          ELSE IF o0 = e THEN res' = OkRange(c, None, <<>>)
+          ELSE res' = ErrR("FAIL")
   /\ UNCHANGED state
 GetManifest(r, c) ==
   /\ IF Has(mans[r], c) THEN res' = OkRead(c, mans[r][c])
@@ -380,8 +383,8 @@ TaggedStaysStep ==
             Has(mans[r], tags[r][t].c) => Has(mans'[r], tags[r][t].c)
 ClosureKeptStep ==
   imm => \A r \in Repos :
-            /\ (ReachBlobs(r, FALSE) \cap blobs[r]) \subseteq blobs'[r]
-            /\ (ReachMans(r, FALSE) \cap DOMAIN mans[r]) \subseteq DOMAIN mans'[r]
+            /\ (ReachBlobs(r, TRUE) \cap blobs[r]) \subseteq blobs'[r]
+            /\ (ReachMans(r, TRUE) \cap DOMAIN mans[r]) \subseteq DOMAIN mans'[r]
 TagStable == [][TagStableStep]_vars
 TaggedStays == [][TaggedStaysStep]_vars
 ClosureKept == [][ClosureKeptStep]_vars
